@@ -73,6 +73,8 @@ type Op struct {
 	// QuirkStrings are extra strings for the first slot of a leaf quirk op,
 	// with {T} standing for the slot's token.
 	QuirkStrings []string
+	// QuirkStringsFor restricts QuirkStrings to the listed properties.
+	QuirkStringsFor []string
 	// ExtraOnly ops are reachable by name (hand-picked Extras terms, sweeps)
 	// but are not part of the enumerated spaces.
 	ExtraOnly bool
